@@ -539,8 +539,23 @@ package eval
 //@   requires [parser] (PARSER $p)
 //@ func parser.parseUnknownVariable C06 C01
 //@   requires [parser] (PARSER $p)
-//@ func parser.buildParentNode C06 C01
+// what a parent node looks like when it is built (the shape the passes and the evaluator rely on): exactly one of node / error;
+// an operator node has kind operator, the operator's NAME as a string value, a non-nil operator function and exactly the
+// given operands; an `if` node has kind cond, the keyword value, the condition closure, the three given operands in order
+// plus a fresh end-if marker (kind cond, value "fi", the always-jump closure, no operands) as the fourth.
+//@ func parser.buildParentNode C06 C01 C09
 //@   requires [parser] (PARSER $p)
+//@   ensures [node-or-error] (= (= $ret1 ENil) (not (= $ret0 0)))
+//@   ensures [operator-node] (=> (and (not (= $ret0 0)) (not (= (fld (fld $ret0 node) flag) 5))) (let ((nd (fld $ret0 node)))
+//@        (and (not (= nd 0)) (fresh $ret0) (fresh nd) (= (fld nd flag) 3) (= (fld nd value) (V_string (fld $car val))) (= (fld $ret0 children) $children)
+//@             (= (fld nd operator) (ite (mapin (global builtinOperators) (fld $car val)) (mapget (global builtinOperators) (fld $car val)) (mapget (fld (fld $p conf) OperatorMap) (fld $car val)))))))
+//@   ensures [if-node] (=> (and (not (= $ret0 0)) (= (fld (fld $ret0 node) flag) 5)) (let ((nd (fld $ret0 node)))
+//@        (and (not (= nd 0)) (fresh $ret0) (fresh nd) (= (fld $car val) "if") (= (fld nd value) (V_keyword "if")) (= (fld nd operator) (fnid parser.buildKeywordNode.operator)))))
+//@   ensures [if-operands] (=> (and (not (= $ret0 0)) (= (fld (fld $ret0 node) flag) 5)) (let ((cs (fld $ret0 children)))
+//@        (and (= (len $children) 3) (= (len cs) 4) (= (idx cs 0) (idx $children 0)) (= (idx cs 1) (idx $children 1)) (= (idx cs 2) (idx $children 2)))))
+//@   ensures [end-if-marker] (=> (and (not (= $ret0 0)) (= (fld (fld $ret0 node) flag) 5)) (let ((fi (idx (fld $ret0 children) 3)))
+//@        (and (not (= fi 0)) (fresh fi) (not (= (fld fi node) 0)) (= (fld (fld fi node) flag) 5) (= (fld (fld fi node) value) (V_string "fi"))
+//@             (= (fld (fld fi node) operator) (fnid parser.buildKeywordNode.$2)) (= (len (fld fi children)) 0))))
 // the two closures of an `if` node: the condition operator answers "jump?" = NOT the condition value (the evaluators
 // call it with exactly one operand, see the callsite clauses of Eval / TryEval); the end-if marker always jumps.
 //@ func parser.buildKeywordNode.operator C01 C06
